@@ -388,6 +388,9 @@ func (f *Frame) applyContract(con *Contract, fn *ssa.Function, c *ssa.CallCommon
 	}
 	bindResultNames(post.vars, sig, rs)
 	for _, cl := range con.Ensures {
+		if cl.Local {
+			continue
+		}
 		t, err := post.evalBool(cl.Expr)
 		if err != nil {
 			vc.specError(cl, err)
